@@ -25,13 +25,17 @@ fn sizes(tier: Tier) -> Vec<u32> {
 
 fn tile_chains(tier: Tier) -> Vec<Vec<usize>> {
     match tier {
-        Tier::Quick => vec![vec![4], vec![8, 4], vec![8, 2], vec![16, 4]],
+        // tile sizes need only be descending and divisible: chains whose root
+        // is not a power of two are included
+        Tier::Quick => vec![vec![4], vec![8, 4], vec![8, 2], vec![16, 4], vec![12, 4], vec![6, 3], vec![5]],
         Tier::Thorough => {
             // every valid chain over {16, 8, 4, 2}
             let all = [16usize, 8, 4, 2];
-            (1u32..16)
+            let mut v: Vec<Vec<usize>> = (1u32..16)
                 .map(|m| all.iter().enumerate().filter(|(i, _)| (m >> i) & 1 == 1).map(|(_, v)| *v).collect())
-                .collect()
+                .collect();
+            v.extend([vec![12, 4], vec![12, 6, 2], vec![6, 3], vec![5], vec![10, 5], vec![24, 8], vec![9, 3], vec![7]]);
+            v
         }
     }
 }
